@@ -33,6 +33,8 @@ type Opts struct {
 	Coercers     bool // allow WithCoercer / Time.Format
 	FailingTests int  // % of custom tests that always fail
 	NoPtrPtr     bool
+	IssuePathPct int // % of option sets with IssuePath (0: 20)
+	PreWeight    int // weight of Preprocess among the node kinds when Pre is allowed (0: 3)
 }
 
 func DefaultOpts() Opts {
@@ -77,6 +79,9 @@ func (g *G) node(depth int) *spec.Node {
 	}
 	if g.O.Pre {
 		w[spec.Pre] = 3
+		if g.O.PreWeight > 0 {
+			w[spec.Pre] = g.O.PreWeight
+		}
 	}
 	return g.nodeOfKind(spec.Kind(g.R.Weighted(w)), depth)
 }
@@ -204,7 +209,11 @@ func (g *G) testOpts(forRequired bool) spec.TestOpts {
 		s := "code_" + fmt.Sprint(g.R.Intn(50))
 		o.Code = &s
 	}
-	if !g.O.NoIssuePath && g.pct(20) {
+	ipp := 20
+	if g.O.IssuePathPct > 0 {
+		ipp = g.O.IssuePathPct
+	}
+	if !g.O.NoIssuePath && g.pct(ipp) {
 		s := "custom.path" + fmt.Sprint(g.R.Intn(5))
 		o.Path = &s
 	}
